@@ -373,7 +373,7 @@ def parts(tier):
     if tier == 'quick':
         n, f = 5, 3
     else:
-        n, f = 6, 4
+        n, f = 7, 5
     return [
         Part('server', make_harness('server', n, f), bounds={'ops': n, 'faulty_sends': f, 'payloads': [p.decode() for p in PAYLOADS], 'errnos': 'EAGAIN EINTR ENOBUFS / EPIPE ECONNRESET'}, encoded=ENC_S, budget_s=80 if tier == 'quick' else 1200),
         Part('client', make_harness('client', n, f), bounds={'ops': n, 'faulty_sends': f}, encoded=ENC_C, budget_s=80 if tier == 'quick' else 1200),
